@@ -1,7 +1,6 @@
 //! C17 (blocking client = async client), C18 (concurrent connections), the accept loop of
 //! C14 and the timeout scenarios of C16: generators and monitors for the socket-level ops.
 
-use super::stream::split_rtu_clean;
 use super::*;
 use crate::run::{Svc, TypedOp};
 use crate::spec::MbapItem;
@@ -378,6 +377,52 @@ pub fn gen_c18(out: &mut Out, rng: &mut Rng, thorough: bool) {
         }
         monitor_line(out, &line);
     }
+    // connections that end in the middle of a request (the client dies), and connections that are
+    // made only after such a one is over: what a dead connection left unread is nobody else's
+    for run in 0..(if thorough { 60 } else { 8 }) {
+        let kind = if run % 2 == 0 { "rtu" } else { "tcp" };
+        let mut line = format!("conc {kind}");
+        let ndirty = rng.range(1, 3);
+        let nlate = rng.range(1, 4);
+        for c in 0..ndirty {
+            let unit = 0x11u8;
+            let req = Request::ReadHoldingRegisters(c as u16, 3);
+            let whole = frame(kind, rng.u16(), unit, &spec::request_bytes(&req).unwrap());
+            // the head of a further request: a write announcing many bytes, or a request that is
+            // one byte short – the missing byte being what the next client sends first
+            let tail = match rng.below(3) {
+                0 => {
+                    let f = frame(kind, 0, 0x07, &[0x10, 0x00, 0x00, 0x00, 0x7B, 0xF6]);
+                    f[..f.len() - if kind == "tcp" { 0 } else { 2 }].to_vec()
+                }
+                1 => {
+                    let f = frame(kind, 0, unit, &spec::request_bytes(&Request::WriteSingleRegister(0x0BAD, 0x00D6)).unwrap());
+                    f[..f.len() - 1].to_vec()
+                }
+                _ => {
+                    let f = frame(kind, 0, unit, &spec::request_bytes(&Request::ReadCoils(1, 1)).unwrap());
+                    f[..rng.range(1, f.len() - 1)].to_vec()
+                }
+            };
+            line.push_str(&format!(
+                " | svc={} r=d{},d{}",
+                Svc::Reply(Response::ReadHoldingRegisters(vec![c as u16, 0xD1, 0xD2])).tok(),
+                hex_raw(&whole),
+                hex_raw(&tail)
+            ));
+        }
+        for c in 0..nlate {
+            let unit = if c == 0 { 0x01 } else { rng.u8() };
+            let req = Request::ReadHoldingRegisters(0x100 + c as u16, 2);
+            line.push_str(&format!(
+                " | late={} svc={} r=d{}",
+                rng.below(ndirty),
+                Svc::Reply(Response::ReadHoldingRegisters(vec![0x1A7E, c as u16])).tok(),
+                hex_raw(&frame(kind, rng.u16(), unit, &spec::request_bytes(&req).unwrap()))
+            ));
+        }
+        monitor_line(out, &line);
+    }
 }
 
 /// the serial RTU server (src/server/rtu.rs) on a pseudo-terminal: pipelined typed requests of
@@ -425,7 +470,7 @@ pub fn mon_c18(out: &mut Out, l: &str, r: &str) {
     for (i, c) in conns.iter().enumerate() {
         let f: Vec<&str> = c.split(' ').collect();
         let Some(svc) = p_list(field("svc", &f), Svc::parse) else { continue };
-        let data = p_bytes(field("r", &f).trim_start_matches('d')).unwrap_or_default();
+        let data = super::stream::parse_events(field("r", &f)).data;
         let frames: Vec<((u16, u8), Vec<u8>)> = if kind == "tcp" {
             spec::split_mbap(&data)
                 .into_iter()
@@ -435,7 +480,7 @@ pub fn mon_c18(out: &mut Out, l: &str, r: &str) {
                 })
                 .collect()
         } else {
-            split_rtu_clean(&data, true).unwrap_or_default().into_iter().map(|(u, p)| ((0, u), p)).collect()
+            super::rtu_frames_prefix(&data).into_iter().map(|(u, p)| ((0, u), p)).collect()
         };
         // what this connection – and only this one – must see
         let mut expect_calls = vec![];
